@@ -15,7 +15,7 @@ From Coq Require Import NArith List Bool.
 From AV Require Model.Text.
 From AV Require Import Spec.Lossy Spec.StyleRec Spec.RoffSpec Model.Base Model.Roff Proofs.Roff Generated.RoffFn Proofs.RoffGen.
 From AV Require Import Generated.RoffCrateFn Proofs.RoffCrateGen.
-From AV Require Import Generated.CansiFn Proofs.CansiSgr Proofs.CansiGen.
+From AV Require Import Generated.CansiFn Proofs.CansiSgr Proofs.CansiGen Proofs.RoffDepsGen.
 Import ListNotations.
 Local Open Scope N_scope.
 
@@ -254,3 +254,13 @@ Proof. exact translated_cansi_categorise_is_model. Qed.
 Theorem c15_translated_cansi_to_roff_is_model : forall input : list N, rf_utf8_ok input ->
   (cs <- g_cansi_categorise_text input ;; ls <- rf_doc_lines cs ;; Some (rf_render ls)) = rf_to_roff input.
 Proof. exact translated_cansi_to_roff_is_model. Qed.
+
+(* BOTH third-party dependencies translated: cansi in front of, roff's renderer behind the lines of anstyle-roff *)
+Theorem c15_translated_dependencies_to_roff_is_model : forall input : list N, rf_utf8_ok input ->
+  (cs <- g_cansi_categorise_text input ;; ls <- rf_doc_lines cs ;; g_rc_to_roff ls) = rf_to_roff input.
+Proof. exact translated_dependencies_to_roff_is_model. Qed.
+
+Theorem c15_translated_pipeline_is_model : forall input : list N, rf_utf8_ok input ->
+  g_cansi_categorise_text input = Some (rf_categorise input) /\
+  (ls <- g_to_roff input ;; g_rc_to_roff ls) = rf_to_roff input.
+Proof. exact translated_pipeline_is_model. Qed.
